@@ -26,7 +26,11 @@ Init == text = <<>>
 \* "punctruns": every run of punctuation / symbol characters around at most one letter or digit (multi-character Avro
 \* patterns made of punctuation only - ",," ".`" "::" ... - sit next to a word or stand alone)
 RunOK(t) == Mode = "punctruns" => (t \in AlnumChars => (t \in {"a", "k", "1"} /\ \A i \in 1..Len(text) : text[i] \notin AlnumChars))
-Next == Len(text) < MaxLen /\ \E t \in Tokens : RunOK(t) /\ text' = Append(text, t)
+\* ... and longer runs (to 8 characters) of ONE repeated punctuation character (greedy multi-character patterns: "...." is
+\* "..." + "."), again around at most one letter or digit
+Homogeneous(s) == \A i, j \in 1..Len(s) : (s[i] \notin AlnumChars /\ s[j] \notin AlnumChars) => s[i] = s[j]
+LenOK(t) == Len(text) < MaxLen \/ (Mode = "punctruns" /\ Len(text) < 8 /\ Homogeneous(Append(text, t)))
+Next == \E t \in Tokens : LenOK(t) /\ RunOK(t) /\ text' = Append(text, t)
 Spec == Init /\ [][Next]_text
 
 I == ImplSplit(text, FALSE)
